@@ -1,8 +1,232 @@
-//! C14 — generator and driver of the real API.
+//! C14 — HMM decoding and likelihoods.
+//!
+//! `<kind> d:<d> init:<k,…> trans:<row;row;…> emit:<row;row;…> end:<k,…|x> obs:<o,…>
+//!      => vit:<s,…>:<ln p> fwd:<ln p> bwd:<ln p>`
+//!
+//! kind = plain (`discrete_emission::Model`) | optnone (`discrete_emission_opt_end::Model`, end = None) |
+//! optend (… with the end vector).  Every probability is `k/d`, handed to `with_float` as `k as f64 / d as f64`.
+//! The three `LogProb` results are printed with `{:e}` (shortest round-trip representation; `-inf`, `NaN`).
 use crate::util::*;
+use bio::stats::hmm::discrete_emission::Model as Plain;
+use bio::stats::hmm::discrete_emission_opt_end::Model as OptEnd;
+use bio::stats::hmm::{backward, forward, viterbi, Model};
+use ndarray::{Array1, Array2};
 
-pub fn gen(_tier: &str, _rng: &mut Rng, _out: &mut Vec<String>) {}
+/// a row of `n` numerators over `d`
+fn row(rng: &mut Rng, n: usize, d: usize) -> Vec<usize> {
+    match rng.below(10) {
+        // stochastic: d units thrown at few cells (zeros frequent)
+        0..=3 => {
+            let mut r = vec![0; n];
+            let cells: Vec<usize> = (0..1 + rng.below(n)).map(|_| rng.below(n)).collect();
+            for _ in 0..d {
+                r[*rng.pick(&cells)] += 1;
+            }
+            r
+        }
+        // all entries equal (ties), stochastic when n divides d
+        4 => vec![d / n; n],
+        5 => {
+            let k = rng.below(d + 1) / n.max(1);
+            vec![k; n]
+        }
+        // one-hot
+        6 => {
+            let mut r = vec![0; n];
+            r[rng.below(n)] = d;
+            r
+        }
+        // sub-stochastic: random entries, sum <= d
+        7 | 8 => {
+            let mut left = d;
+            let mut r = vec![0; n];
+            for _ in 0..n {
+                let i = rng.below(n);
+                if r[i] == 0 && left > 0 && rng.chance(2, 3) {
+                    let k = 1 + rng.below(left);
+                    r[i] = k;
+                    left -= k;
+                }
+            }
+            r
+        }
+        // two equal halves (a tie between two states)
+        _ => {
+            let mut r = vec![0; n];
+            let a = rng.below(n);
+            let b = rng.below(n);
+            r[a] += d / 2;
+            r[b] += d / 2;
+            r
+        }
+    }
+}
 
-pub fn exec(_toks: &[&str]) -> Result<String, String> {
-    Err("unimplemented".into())
+fn endvec(rng: &mut Rng, n: usize, d: usize) -> Vec<usize> {
+    match rng.below(8) {
+        0 => vec![d; n],
+        1 => vec![rng.below(d + 1); n],
+        2 => {
+            let mut r = vec![0; n];
+            r[rng.below(n)] = 1 + rng.below(d);
+            r
+        }
+        _ => (0..n).map(|_| if rng.chance(1, 4) { 0 } else { rng.below(d + 1) }).collect(),
+    }
+}
+
+fn fmt_rows(rows: &[Vec<usize>]) -> String {
+    rows.iter().map(|r| join(r, ",")).collect::<Vec<_>>().join(";")
+}
+
+fn line(kind: &str, d: usize, init: &[usize], trans: &[Vec<usize>], emit: &[Vec<usize>], end: Option<&[usize]>, obs: &[usize]) -> String {
+    format!(
+        "{} d:{} init:{} trans:{} emit:{} end:{} obs:{}",
+        kind,
+        d,
+        join(init, ","),
+        fmt_rows(trans),
+        fmt_rows(emit),
+        match end {
+            Some(e) => join(e, ","),
+            None => "x".to_string(),
+        },
+        join(obs, ",")
+    )
+}
+
+fn random_case(rng: &mut Rng, tmax: usize) -> String {
+    let s = *rng.pick(&[1usize, 2, 2, 2, 2, 3, 3, 3, 4, 4]);
+    let m = *rng.pick(&[1usize, 2, 2, 2, 3, 3, 4]);
+    let d = *rng.pick(&[1usize, 2, 2, 3, 4, 4, 5, 6, 8, 10, 10, 12]);
+    let t = match rng.below(10) {
+        0 | 1 => 1,
+        2 | 3 => 2,
+        4 => 3,
+        _ => 1 + rng.below(tmax),
+    };
+    let init = row(rng, s, d);
+    let trans: Vec<Vec<usize>> = (0..s).map(|_| row(rng, s, d)).collect();
+    let emit: Vec<Vec<usize>> = (0..s).map(|_| row(rng, m, d)).collect();
+    // observations: mostly simulated along the support of the model (so that the likelihood is non-zero),
+    // sometimes uniformly random (impossible sequences are frequent then)
+    let obs: Vec<usize> = if rng.chance(3, 4) {
+        let supp = |r: &[usize]| -> Vec<usize> { (0..r.len()).filter(|&i| r[i] > 0).collect() };
+        let mut o = vec![];
+        let mut cur_row: Vec<usize> = init.clone();
+        for _ in 0..t {
+            let ss = supp(&cur_row);
+            // prefer states that can emit something
+            let ss2: Vec<usize> = ss.iter().cloned().filter(|&q| emit[q].iter().any(|&k| k > 0)).collect();
+            let q = if !ss2.is_empty() { *rng.pick(&ss2) } else if !ss.is_empty() { *rng.pick(&ss) } else { rng.below(s) };
+            let es = supp(&emit[q]);
+            o.push(if es.is_empty() { rng.below(m) } else { *rng.pick(&es) });
+            cur_row = trans[q].clone();
+        }
+        o
+    } else {
+        (0..t).map(|_| rng.below(m)).collect()
+    };
+    let kind = *rng.pick(&["plain", "plain", "plain", "optnone", "optnone", "optend", "optend", "optend", "optend"]);
+    let end = if kind == "optend" { Some(endvec(rng, s, d)) } else { None };
+    line(kind, d, &init, &trans, &emit, end.as_deref(), &obs)
+}
+
+pub fn gen(tier: &str, rng: &mut Rng, out: &mut Vec<String>) {
+    let (n, tmax) = if tier == "thorough" { (80_000, 10) } else { (3_000, 8) };
+    for _ in 0..n {
+        out.push(random_case(rng, tmax));
+    }
+    if tier == "thorough" {
+        // exhaustive small scope: every 0/1-valued model with S = M = 2 and every observation sequence of length <= 3,
+        // for the plain model and for the model with every 0/1 end vector
+        for bits in 0u32..1024 {
+            let b = |i: u32| ((bits >> i) & 1) as usize;
+            let init = vec![b(0), b(1)];
+            let trans = vec![vec![b(2), b(3)], vec![b(4), b(5)]];
+            let emit = vec![vec![b(6), b(7)], vec![b(8), b(9)]];
+            for t in 1..=3usize {
+                for ob in 0..(1u32 << t) {
+                    let obs: Vec<usize> = (0..t).map(|i| ((ob >> i) & 1) as usize).collect();
+                    out.push(line("plain", 1, &init, &trans, &emit, None, &obs));
+                    for e in 0..4usize {
+                        let end = vec![e & 1, e >> 1];
+                        out.push(line("optend", 1, &init, &trans, &emit, Some(&end), &obs));
+                    }
+                }
+            }
+        }
+    }
+}
+
+fn field<'a>(tok: &'a str, key: &str) -> Result<&'a str, String> {
+    kv(tok, key)
+}
+
+fn rows(s: &str) -> Result<Vec<Vec<usize>>, String> {
+    split_ne(s, ';').into_iter().map(|r| parse_list::<usize>(r, ',')).collect()
+}
+
+fn run<M: Model<usize>>(hmm: &M, obs: &[usize]) -> String {
+    let (path, lv) = viterbi(hmm, obs);
+    let (_, lf) = forward(hmm, obs);
+    let (_, lb) = backward(hmm, obs);
+    let p: Vec<usize> = path.iter().map(|s| **s).collect();
+    format!("vit:{}:{:e} fwd:{:e} bwd:{:e}", join(&p, ","), *lv, *lf, *lb)
+}
+
+pub fn exec(toks: &[&str]) -> Result<String, String> {
+    if toks.len() != 7 {
+        return Err("arity".into());
+    }
+    let kind = toks[0];
+    let d: usize = parse(field(toks[1], "d")?)?;
+    let init: Vec<usize> = parse_list(field(toks[2], "init")?, ',')?;
+    let trans = rows(field(toks[3], "trans")?)?;
+    let emit = rows(field(toks[4], "emit")?)?;
+    let end_s = field(toks[5], "end")?;
+    let end: Option<Vec<usize>> = if end_s == "x" { None } else { Some(parse_list(end_s, ',')?) };
+    let obs: Vec<usize> = parse_list(field(toks[6], "obs")?, ',')?;
+    let s = init.len();
+    let m = emit.first().map(|r| r.len()).unwrap_or(0);
+    if d == 0 || s == 0 || m == 0 || obs.is_empty() {
+        return Err("empty dimension".into());
+    }
+    if trans.len() != s || trans.iter().any(|r| r.len() != s) || emit.len() != s || emit.iter().any(|r| r.len() != m) {
+        return Err("shape".into());
+    }
+    if obs.iter().any(|&o| o >= m) {
+        return Err("symbol out of range".into());
+    }
+    if init.iter().chain(trans.iter().flatten()).chain(emit.iter().flatten()).any(|&k| k > d) {
+        return Err("numerator above denominator".into());
+    }
+    if let Some(e) = &end {
+        if e.len() != s || e.iter().any(|&k| k > d) {
+            return Err("end shape".into());
+        }
+    }
+    if (kind == "optend") != end.is_some() {
+        return Err("end vector and kind disagree".into());
+    }
+    let f = |k: usize| k as f64 / d as f64;
+    let a_init = Array1::from(init.iter().map(|&k| f(k)).collect::<Vec<f64>>());
+    let a_trans = Array2::from_shape_vec((s, s), trans.iter().flatten().map(|&k| f(k)).collect()).map_err(|e| e.to_string())?;
+    let a_emit = Array2::from_shape_vec((s, m), emit.iter().flatten().map(|&k| f(k)).collect()).map_err(|e| e.to_string())?;
+    match kind {
+        "plain" => {
+            let hmm = Plain::with_float(&a_trans, &a_emit, &a_init).map_err(|e| e.to_string())?;
+            Ok(run(&hmm, &obs))
+        }
+        "optnone" => {
+            let hmm = OptEnd::with_float(&a_trans, &a_emit, &a_init, None).map_err(|e| e.to_string())?;
+            Ok(run(&hmm, &obs))
+        }
+        "optend" => {
+            let a_end = Array1::from(end.unwrap().iter().map(|&k| f(k)).collect::<Vec<f64>>());
+            let hmm = OptEnd::with_float(&a_trans, &a_emit, &a_init, Some(&a_end)).map_err(|e| e.to_string())?;
+            Ok(run(&hmm, &obs))
+        }
+        _ => Err("unknown kind".into()),
+    }
 }
